@@ -1,52 +1,53 @@
 """C03: arithmetic and conversion are exact or revert.
 
-O-tie: the real code generators (both front ends) are run on symbolic operands for the whole numeric type
-family, their output exported as Coq terms, and tied by kernel-checked syntactic equality to parametric
+O-tie: the real code generators (both front ends) are run on symbolic / literal operands for the whole numeric
+type family, their output exported as Coq terms, and tied by kernel-checked syntactic equality to parametric
 template models whose exactness w.r.t. the mathematical spec is proved for all operand values.
-H-ties: (1) every exported legacy template is compiled by the real compile_ir + assembler and executed on
-pyrevm against the Coq evaluator and the Coq spec; (2) glue differential: probe contracts (one operation per
-external function) through the full compiler under several configurations vs the Coq spec."""
-import math
+H-ties: (1) exported templates are compiled by the real back ends (compile_ir / venom) + assembler and executed
+on pyrevm against the Coq evaluators and the Coq spec (compared inside Coq); (2) glue differential: probe
+contracts (one operation per external function) through the full compiler under several configurations vs the
+Coq spec."""
+import decimal
+import threading
 import time
+from pathlib import Path
 
 from vlib import c03_export as X
 from vlib import coqrun
+from vlib.c03_lib import (bounds, call_word, compare_rows, ir_snippet_code, run_code, type_grid, tyname,
+                          venom_snippet_code, word)
 from vlib.common import COQ
-from vlib.configs import configs, core_configs, compile_src
+from vlib.configs import Config, configs
+from vlib.configs import compile_src
 from vlib.evm import Chain
 
 LEVEL = "proof"
 META = {
     "category": "proof",
     "text": "Every checked-arithmetic template (+ - * / // % unary-minus, range clamps) that the legacy and Venom code "
-            "generators emit for all 64 integer types and decimal is proved (Coq, all operand values) to return the "
+            "generators emit for all 64 integer types and decimal, with operands in variables or literal on either side "
+            "(including the literal-dependent special cases), is proved (Coq, all operand values) to return the "
             "exact mathematical result when representable and to revert otherwise; the templates are re-exported "
             "from /repo on every run and tied to the proved parametric models by kernel-checked equality over the "
             "complete type family. The rest of the pipeline (ABI decode, optimiser passes, back ends) is covered by a "
             "differential of probe contracts against the Coq spec under several configurations.",
     "level_note": "Trusted: Coq kernel + vm_compute; the exporter tools/vlib/c03_export.py (IRnode/Venom instruction -> "
-                  "Coq term; validated per run by executing the exported legacy templates through the real "
-                  "compile_ir+assembler on pyrevm against the Coq evaluator); Word256.v (EVM word semantics, tied to "
-                  "pyrevm by vlib.wordtie). Proved for operands held in variables (var/var shape); literal-operand "
-                  "special cases, pow and convert() are covered by the glue differential only. Optimiser passes that "
-                  "later rewrite/delete checks are covered by the glue differential only.",
+                  "Coq term; validated per run by executing exported templates through the real back ends on pyrevm "
+                  "against the Coq evaluators); Word256.v (EVM word semantics, tied to pyrevm by vlib.wordtie). "
+                  "Literal-operand templates are tied for a finite literal set covering every literal-dependent branch "
+                  "(the theorems are parametric in the literal). Optimiser passes that later rewrite/delete checks "
+                  "are covered by the glue differential only.",
     "technique": "Coq proof over exported code-generator templates (O-tie) + differential correspondence",
 }
 
 # static part (independent of /repo): models, word lemmas, the parametric exactness theorems
 STATIC = ["C03/LIR.v", "C03/VSL.v", "C03/ArithSpec.v", "C03/WordArith.v", "C03/TypeLemmas.v", "C03/ArithModel.v",
-          "C03/TieBase.v", "C03/LegacyExact.v", "C03/VenomExact.v"]
+          "C03/TieBase.v", "C03/VSubst.v", "C03/LegacyExact.v", "C03/VenomExact.v"]
 # regenerated templates + the ties + the property theorems about the REAL templates
 LEGACY = ["C03/GenLegacy.v", "C03/TieLegacy.v", "C03/PropsLegacy.v"]
 VENOM = ["C03/GenVenom.v", "C03/TieVenom.v", "C03/PropsVenom.v"]
 
-W = 2**256
 OPSYM = {"AAdd": "+", "ASub": "-", "AMul": "*", "ADiv": "//", "AMod": "%", "AUSub": "-"}
-
-
-# ------------------------------------------------------------------ helpers
-from vlib.c03_lib import (bounds, call_word, compare_rows, ir_snippet_code, run_code, type_grid, tyname,  # noqa: E402
-                          venom_snippet_code, word)
 
 
 def zlist(xs):
@@ -55,22 +56,76 @@ def zlist(xs):
 
 COQ_PRELUDE = """From Verif Require Import Base.Word256 C03.LIR C03.VSL C03.ArithSpec.
 Definition oc (o : outcome) : Z := match o with Val v => v | Revert => -1 | Stuck => -2 | Unit => -3 end.
-Definition prs (G : list Z) (unary : bool) : list (Z * Z) := if unary then map (fun x => (x, 0)) G else list_prod G G.
-Definition spec_row (T : nty) (op : aop) (G : list Z) (unary : bool) : list Z :=
-  map (fun p => oc (enc_out (arith_spec T op (fst p) (snd p)))) (prs G unary).
+(* operand pairs for a shape: 0 = grid x grid, 1 = x fixed to lit, 2 = y fixed to lit, 3 = unary *)
+Definition prs (sh lit : Z) (G : list Z) : list (Z * Z) :=
+  if sh =? 1 then map (fun y => (lit, y)) G else if sh =? 2 then map (fun x => (x, lit)) G
+  else if sh =? 3 then map (fun x => (x, 0)) G else list_prod G G.
+Definition spec_row (T : nty) (op : aop) (sh lit : Z) (G : list Z) : list Z :=
+  map (fun p => oc (enc_out (arith_spec T op (fst p) (snd p)))) (prs sh lit G).
+Definition lev_row (t : lir) (sh lit : Z) (G : list Z) : list Z :=
+  map (fun p => oc (leval (env2 (fst p) (snd p)) t)) (prs sh lit G).
+Definition vev_row (t : vtemplate) (sh lit : Z) (G : list Z) : list Z :=
+  map (fun p => oc (vrun [("%2"%string, enc (snd p)); ("%1"%string, enc (fst p))] t)) (prs sh lit G).
+Definition nest_row (T : nty) (G : list Z) : list Z :=
+  map (fun p => oc (enc_out (match arith_spec T ASub (fst p) (snd p) with
+     | Val v => arith_spec T AAdd v (snd p) | o => o end))) (list_prod G G).
 """
 
 
-def pairs(g, unary):
-    return [(x, 0) for x in g] if unary else [(x, y) for x in g for y in g]
+def pairs(sh, lit, g):
+    if sh == 1:
+        return [(lit, y) for y in g]
+    if sh == 2:
+        return [(x, lit) for x in g]
+    if sh == 3:
+        return [(x, 0) for x in g]
+    return [(x, y) for x in g for y in g]
 
 
-def template_differential(ctx, templates, gen_compiled, kind, only_types=None):
+# ------------------------------------------------------------------ Coq builds (two independent chains)
+def build_chain(ctx, files, deps, res, key):
+    """Content-keyed cached build of a chain that depends on `deps` (already built).  Mirrors
+    Ctx.coq_build_cached but with external dependencies, so the legacy and venom chains run concurrently."""
+    done = [COQ / d for d in deps]
+    for f in files:
+        p = COQ / f
+        hits = coqrun.forbidden_tokens(p)
+        if hits:
+            ctx.violation("gate", f"forbidden construct in {f}", {"hits": hits[:10]})
+            res[key] = {"ok": False, "file": str(f), "failed_lemma": None, "out": str(hits)}
+            return
+        r = coqrun.coqc_cached(p, done, timeout=900)
+        names = coqrun.obligations(p)
+        ctx.coq_files.append(str(f))
+        ctx.obligation_names += [f"{Path(f).stem}.{n}" for n in names]
+        ctx.extra.setdefault("reused_vo", [])
+        if r.get("reused"):
+            ctx.extra["reused_vo"].append(str(f))
+        if not r["ok"]:
+            if r["failed_lemma"] in names:
+                ctx.discharged += names.index(r["failed_lemma"])
+            res[key] = {"ok": False, "file": r["file"], "failed_lemma": r["failed_lemma"], "out": r["out"][-3000:]}
+            return
+        ctx.discharged += len(names)
+        ctx.assumptions_out += coqrun.parse_assumptions(r["out"])
+        done.append(p)
+    ctx.checker_cmds.append("coqc -Q coq Verif " + " ".join(str(f) for f in files) + " (content-keyed reuse)")
+    res[key] = {"ok": True}
+
+
+# ------------------------------------------------------------------ (1) template differential / Search
+def template_differential(ctx, templates, kind, only_types=None, lit_sample=None):
     """exported templates: real back end on EVM  vs  Coq evaluator  vs  Coq arith_spec, on the boundary grid.
     Doubles as the Search for a broken tie/proof (evaluates whatever the generators emit NOW)."""
     rnd = ctx.rng(kind + "grid")
     size = 11 if ctx.tier == "quick" else 14
-    idx = [j for j, (op, ty, n) in enumerate(templates) if only_types is None or ty in only_types]
+    idx = []
+    for j, (op, ty, sh, lit, n) in enumerate(templates):
+        if only_types is not None and ty not in only_types:
+            continue
+        if sh != "VV" and lit_sample is not None and rnd.random() > lit_sample:
+            continue
+        idx.append(j)
     grids = {}
     for j in idx:
         ty = templates[j][1]
@@ -80,90 +135,120 @@ def template_differential(ctx, templates, gen_compiled, kind, only_types=None):
     imports = COQ_PRELUDE
     for i, ty in enumerate(tys):
         imports += f"Definition G{i} := {zlist(grids[ty])}.\n"
-    imports += ("Definition lev_row (t : lir) (G : list Z) (unary : bool) : list Z :=\n"
-                "  map (fun p => oc (leval (env2 (fst p) (snd p)) t)) (prs G unary).\n"
-                "Definition vev_row (t : vtemplate) (G : list Z) (unary : bool) : list Z :=\n"
-                "  map (fun p => oc (vrun [(\"%2\"%string, enc (snd p)); (\"%1\"%string, enc (fst p))] t)) (prs G unary).\n")
     chain = Chain("cancun")
     rows, meta = [], []
     n_eval = 0
     for j in idx:
-        op, ty, n = templates[j]
-        un = "true" if op == "AUSub" else "false"
+        op, ty, shape, lit, n = templates[j]
+        sh = 3 if op == "AUSub" else X.SHAPES[shape]
         gi = tys.index(ty)
-        cs = pairs(grids[ty], op == "AUSub")
-        code = ir_snippet_code(n) if kind == "legacy" else venom_snippet_code(n)
-        obs = run_code(chain, code, cs)
+        cs = pairs(sh, lit, grids[ty])
+        try:
+            code = ir_snippet_code(n) if kind == "legacy" else venom_snippet_code(n)
+            obs = run_code(chain, code, cs)
+        except Exception as e:  # noqa
+            if type(e).__name__ != "StaticAssertionException":
+                raise
+            # the real back end proves an assertion of this template always fails (e.g. literal zero divisor)
+            # and refuses to compile it: no execution can return a value
+            obs = [-1] * len(cs)
         n_eval += len(cs)
-        rows.append({"spec": f"spec_row {X.nty(*ty)} {op} G{gi} {un}",
-                     "model": (f"lev_row {X.lir_term(n)} G{gi} {un}" if kind == "legacy"
-                               else f"vev_row {X.vtemplate_term(*n)} G{gi} {un}"), "obs": obs})
-        meta.append((op, ty, n, cs, obs))
+        rows.append({"spec": f"spec_row {X.nty(*ty)} {op} {sh} {X.zl(lit)} G{gi}",
+                     "model": (f"lev_row {X.lir_term(n)} {sh} {X.zl(lit)} G{gi}" if kind == "legacy"
+                               else f"vev_row {X.vtemplate_term(*n)} {sh} {X.zl(lit)} G{gi}"), "obs": obs})
+        meta.append((op, ty, shape, lit, n, cs, obs))
     res = compare_rows(imports, rows, "c03" + kind)
     bad_model, failing = [], []
-    for (op, ty, n, cs, obs), (sm, mm) in zip(meta, res):
+    for (op, ty, shape, lit, n, cs, obs), (sm, mm) in zip(meta, res):
         for i, e in sm[:1]:
             c = cs[i] if 0 <= i < len(cs) else ("?", "?")
-            failing.append((op, ty, c, e, obs[i] if 0 <= i < len(obs) else None, n))
+            failing.append((op, ty, shape, c, e, obs[i] if 0 <= i < len(obs) else None, n))
         for i, e in mm[:1]:
             c = cs[i] if 0 <= i < len(cs) else ("?", "?")
-            bad_model.append((op, ty, c, e, obs[i] if 0 <= i < len(obs) else None))
+            bad_model.append((op, ty, shape, c, e, obs[i] if 0 <= i < len(obs) else None))
     ctx.corr[kind + "_template_cases"] = n_eval
+    ctx.corr[kind + "_templates_run"] = len(idx)
     return n_eval, failing, bad_model
 
 
 # ------------------------------------------------------------------ (2) glue differential
-def probe_source(ty):
+def lit_src(ty, v):
+    """source text of literal v of numeric type ty"""
+    if ty[2]:
+        q = decimal.Decimal(v) / decimal.Decimal(10**10)
+        s = format(q, "f")
+        return s if "." in s else s + ".0"
+    return str(v)
+
+
+GLUE_SYMS = (("add", "+", "AAdd"), ("sub", "-", "ASub"), ("mul", "*", "AMul"), ("div", None, "ADiv"), ("mod", "%", "AMod"))
+
+
+def glue_lits(ty):
+    lo, hi = bounds(ty[0], ty[1])
+    out = []
+    for v in (lo, -1, 7):
+        if lo <= v <= hi and v not in out:
+            out.append(v)
+    return out
+
+
+def probe_source(ty, with_lits):
+    """-> (source, [(fn name, aop | 'nest' | 'narrow', shape code, lit)])"""
     t = tyname(ty)
     k, s, d = ty
-    src = []
-    for name, sym in (("add", "+"), ("sub", "-"), ("mul", "*"), ("div", "/" if d else "//"), ("mod", "%")):
+    src, fns = [], []
+    for name, sym, aop in GLUE_SYMS:
+        sym = sym or ("/" if d else "//")
         src.append(f"@external\ndef {name}(x: {t}, y: {t}) -> {t}:\n    return x {sym} y\n")
+        fns.append((name, aop, 0, 0))
     if s:
         src.append(f"@external\ndef usub(x: {t}) -> {t}:\n    return -x\n")
-    # storage-operand and nested shapes
+        fns.append(("usub", "AUSub", 3, 0))
+    # storage-operand, internal-call and nested shapes
     src.append(f"s: {t}\n")
     src.append(f"@external\ndef st(x: {t}, y: {t}) -> {t}:\n    self.s = x\n    self.s *= y\n    return self.s\n")
+    fns.append(("st", "AMul", 0, 0))
     src.append(f"@internal\ndef idy(v: {t}) -> {t}:\n    return v\n")
     src.append(f"@external\ndef nest(x: {t}, y: {t}) -> {t}:\n    return (self.idy(x) - y) + y\n")
-    return "\n".join(src)
+    fns.append(("nest", "nest", 0, 0))
+    # range-narrowed operands: the asserts let the venom range analysis reason about (and delete) the checks
+    lo, hi = bounds(k, s)
+    src.append(f"@external\ndef narrow(x: {t}, y: {t}) -> {t}:\n    assert x >= {lit_src(ty, lo // 2)}\n"
+               f"    assert x <= {lit_src(ty, hi // 2)}\n    z: {t} = x + x\n    return z - y\n")
+    fns.append(("narrow", "narrow", 0, 0))
+    if with_lits:
+        for li, v in enumerate(glue_lits(ty)):
+            ls = lit_src(ty, v)
+            for name, sym, aop in GLUE_SYMS:
+                sym = sym or ("/" if d else "//")
+                src.append(f"@external\ndef {name}_l{li}(y: {t}) -> {t}:\n    return {ls} {sym} y\n")
+                fns.append((f"{name}_l{li}", aop, 1, v))
+                if aop in ("ADiv", "AMod") and v == 0:
+                    continue  # literal zero divisor: rejected by the type checker
+                src.append(f"@external\ndef {name}_r{li}(x: {t}) -> {t}:\n    return x {sym} {ls}\n")
+                fns.append((f"{name}_r{li}", aop, 2, v))
+    return "\n".join(src), fns
 
 
-GLUE_OPS = [("add", "AAdd"), ("sub", "ASub"), ("mul", "AMul"), ("div", "ADiv"), ("mod", "AMod"), ("usub", "AUSub")]
-
-
-def selector(sig):
-    from vyper.utils import method_id_int
-    return method_id_int(sig).to_bytes(4, "big")
-
-
-def glue_differential(ctx, tys, cfgs, size, want=None):
-    """probe contracts through the full compiler, executed on pyrevm, vs arith_spec computed in Coq.
-    want: optional {(ty, aop): [(x,y)...]} extra cases (Search)."""
+def glue_differential(ctx, tys, cfgs, size, with_lits=True):
+    """probe contracts through the full compiler, executed on pyrevm, vs arith_spec computed in Coq."""
     rnd = ctx.rng("glue")
     grids = {ty: type_grid(ty, rnd, size) for ty in tys}
     imports = COQ_PRELUDE
     for i, ty in enumerate(tys):
         imports += f"Definition G{i} := {zlist(grids[ty])}.\n"
-    imports += ("Definition nest_row (T : nty) (G : list Z) : list Z :=\n"
-                "  map (fun p => oc (enc_out (match arith_spec T ASub (fst p) (snd p) with\n"
-                "     | Val v => arith_spec T AAdd v (snd p) | o => o end))) (list_prod G G).\n")
-    specs = {}
-    for i, ty in enumerate(tys):
-        for fn, aop in GLUE_OPS:
-            if aop == "AUSub" and not ty[1]:
-                continue
-            specs[(ty, fn)] = (f"spec_row {X.nty(*ty)} {aop} G{i} {'true' if aop == 'AUSub' else 'false'}",
-                               pairs(grids[ty], aop == "AUSub"))
-        specs[(ty, "st")] = (f"spec_row {X.nty(*ty)} AMul G{i} false", pairs(grids[ty], False))
-        specs[(ty, "nest")] = (f"nest_row {X.nty(*ty)} G{i}", pairs(grids[ty], False))
+    imports += ("Definition narrow_row (T : nty) (lo hi : Z) (G : list Z) : list Z :=\n"
+                "  map (fun p => oc (enc_out (if (fst p <? lo) || (hi <? fst p) then Revert else\n"
+                "     match arith_spec T AAdd (fst p) (fst p) with Val v => arith_spec T ASub v (snd p) | o => o end)))\n"
+                "      (list_prod G G).\n")
     n_eval = 0
     dist = {}
     rows, meta = [], []
     for cfg in cfgs:
         chain = Chain(cfg.evm)
-        for ty in tys:
-            src = probe_source(ty)
+        for gi, ty in enumerate(tys):
+            src, fns = probe_source(ty, with_lits)
             try:
                 out = compile_src(src, cfg, formats=("bytecode", "method_identifiers"))
             except Exception as e:  # the probe is plain arithmetic: every configuration must compile it
@@ -172,26 +257,38 @@ def glue_differential(ctx, tys, cfgs, size, want=None):
                 continue
             addr = chain.deploy(bytes.fromhex(out["bytecode"][2:]))
             sels = {sig.split("(")[0]: int(h, 16).to_bytes(4, "big") for sig, h in out["method_identifiers"].items()}
-            for fn in ("add", "sub", "mul", "div", "mod", "usub", "st", "nest"):
-                if (ty, fn) not in specs:
-                    continue
-                spec, cs = specs[(ty, fn)]
+            lo, hi = bounds(ty[0], ty[1])
+            for fn, aop, sh, lit in fns:
+                cs = pairs(sh, lit, grids[ty])
                 sel = sels[fn]
-                obs = [call_word(chain, addr, sel + word(x) + (b"" if fn == "usub" else word(y))) for x, y in cs]
+                if sh == 1:
+                    datas = [sel + word(y) for _, y in cs]
+                elif sh in (2, 3):
+                    datas = [sel + word(x) for x, _ in cs]
+                else:
+                    datas = [sel + word(x) + word(y) for x, y in cs]
+                obs = [call_word(chain, addr, dt) for dt in datas]
                 n_eval += len(cs)
-                dist[fn] = dist.get(fn, 0) + len(cs)
+                key = fn.split("_")[0] + ("" if sh in (0, 3) else "_lit")
+                dist[key] = dist.get(key, 0) + len(cs)
+                if aop == "nest":
+                    spec = f"nest_row {X.nty(*ty)} G{gi}"
+                elif aop == "narrow":
+                    spec = f"narrow_row {X.nty(*ty)} {X.zl(lo // 2)} {X.zl(hi // 2)} G{gi}"
+                else:
+                    spec = f"spec_row {X.nty(*ty)} {aop} {sh} {X.zl(lit)} G{gi}"
                 rows.append({"spec": spec, "obs": obs})
-                meta.append((ty, fn, cfg, cs, obs, sel, src))
-    res = compare_rows(imports, rows, "c03glue", shard=150)
+                meta.append((ty, fn, cfg, cs, obs, datas, src))
+    res = compare_rows(imports, rows, "c03glue", shard=250)
     failing = []
-    for (ty, fn, cfg, cs, obs, sel, src), (sm, _) in zip(meta, res):
+    for (ty, fn, cfg, cs, obs, datas, src), (sm, _) in zip(meta, res):
         for i, e in sm[:1]:
             x, y = cs[i] if 0 <= i < len(cs) else (0, 0)
             got = obs[i] if 0 <= i < len(obs) else None
             failing.append({"type": tyname(ty), "function": fn, "config": cfg.name, "args": [str(x), str(y)],
                             "expected": "revert" if e == -1 else hex(e),
                             "observed": "revert" if got == -1 else (hex(got) if got is not None else "?"),
-                            "calldata": (sel + word(x) + (b"" if fn == "usub" else word(y))).hex(), "source": src})
+                            "calldata": datas[i].hex() if 0 <= i < len(datas) else "?", "source": src})
     ctx.corr["glue_cases"] = ctx.corr.get("glue_cases", 0) + n_eval
     for k_, v_ in dist.items():
         ctx.corr.setdefault("glue_distribution", {})[k_] = ctx.corr.get("glue_distribution", {}).get(k_, 0) + v_
@@ -211,6 +308,12 @@ def choose_types(ctx, all_tys):
     return must + rnd.sample(rest, 4)
 
 
+def quick_glue_configs():
+    """both pipelines; venom at gas AND O3 (range-based check elimination); legacy unoptimised"""
+    return [Config(False, "gas", "prague"), Config(True, "gas", "prague"),
+            Config(False, "none", "london"), Config(True, "O3", "cancun")]
+
+
 def run(ctx):
     t0 = time.time()
     # ---- regenerate templates from the current tree
@@ -221,55 +324,70 @@ def run(ctx):
         (COQ / "C03" / "GenLegacy.v").write_text(text)
     except Exception as e:  # noqa
         gen_err = f"legacy export: {type(e).__name__}: {e}"
-    venom_ok = True
-    if venom_ok:
-        try:
-            text, vtempl, vclamps = X.gen_venom()
-            (COQ / "C03" / "GenVenom.v").write_text(text)
-        except Exception as e:  # noqa
-            gen_err = (gen_err or "") + f" venom export: {type(e).__name__}: {e}"
-    ctx.extra["family_size"] = {"legacy_templates": len(ltempl), "venom_templates": len(vtempl), "numeric_types": 65}
+    try:
+        text, vtempl, vclamps = X.gen_venom()
+        (COQ / "C03" / "GenVenom.v").write_text(text)
+    except Exception as e:  # noqa
+        gen_err = (gen_err or "") + f" venom export: {type(e).__name__}: {e}"
+    ctx.extra["family_size"] = {"legacy_templates": len(ltempl), "venom_templates": len(vtempl), "numeric_types": 65,
+                                "legacy_clamps": 65, "venom_clamps": 65}
 
-    # ---- proofs
-    b0 = ctx.coq_build_cached(STATIC)          # content-keyed reuse: recompiled iff a source/Base file changed
-    bl = ctx.coq_build(LEGACY) if b0["ok"] and ltempl else {"ok": False, "file": "C03/GenLegacy.v", "failed_lemma": None, "out": gen_err or ""}
-    bv = ctx.coq_build(VENOM) if b0["ok"] and vtempl else {"ok": False, "file": "C03/GenVenom.v", "failed_lemma": None, "out": gen_err or ""}
-    ctx.log(f"coq done {time.time()-t0:.0f}s legacy={bl['ok']} venom={bv['ok']}")
+    # ---- proofs: static part, then the legacy and venom chains concurrently (content-keyed .vo reuse)
+    b0 = ctx.coq_build_cached(STATIC)
+    res = {"legacy": {"ok": False, "file": "C03/GenLegacy.v", "failed_lemma": None, "out": gen_err or ""},
+           "venom": {"ok": False, "file": "C03/GenVenom.v", "failed_lemma": None, "out": gen_err or ""}}
+    if b0["ok"]:
+        ths = []
+        if ltempl:
+            ths.append(threading.Thread(target=build_chain, args=(ctx, LEGACY, STATIC, res, "legacy")))
+        if vtempl:
+            ths.append(threading.Thread(target=build_chain, args=(ctx, VENOM, STATIC, res, "venom")))
+        for t in ths:
+            t.start()
+        for t in ths:
+            t.join()
+    bl, bv = res["legacy"], res["venom"]
+    ctx.log(f"coq done {time.time()-t0:.0f}s static={b0['ok']} legacy={bl['ok']} venom={bv['ok']}")
     if bl["ok"] and bv["ok"]:
-        ctx.extra["syntactic_matches"] = len(ltempl) + len(vtempl) + 65 * (2 if venom_ok else 1)
+        ctx.extra["syntactic_matches"] = len(ltempl) + len(vtempl) + 130
 
     # ---- correspondence / search
     found = False
     total = 0
     all_tys = [(k, s, d) for k, s, d, _ in X.num_types()]
     tys = choose_types(ctx, all_tys)
-    for kind, templ, b, gen in (("legacy", ltempl, bl, "GenLegacy"), ("venom", vtempl, bv, "GenVenom")):
+    for kind, templ, b in (("legacy", ltempl, bl), ("venom", vtempl, bv)):
         if not templ or not b0["ok"]:
             continue
-        gen_compiled = (COQ / "C03" / f"{gen}.vo").exists() and gen not in str(b.get("file", ""))
-        # quick tier: a seeded subset of types, unless a proof/tie is broken (then Search over the whole family)
-        only = set(tys) if (ctx.tier == "quick" and b["ok"]) else None
-        n, failing, bad_model = template_differential(ctx, templ, gen_compiled, kind, only)
+        # quick tier: a seeded subset of types / literal shapes, unless a proof or tie is broken
+        # (then Search over the whole family)
+        if b["ok"]:
+            only = set(tys) if ctx.tier == "quick" else None
+            frac = 0.25 if ctx.tier == "quick" else 0.5
+        else:
+            only, frac = None, None
+        n, failing, bad_model = template_differential(ctx, templ, kind, only, frac)
         total += n
-        for op, ty, c, e, g, node in failing[:5]:
+        for op, ty, shape, c, e, g, node in failing[:5]:
             found = True
             tstr = str(node) if kind == "legacy" else "; ".join(str(i).strip() for i in node[0]) + f" -> {node[1]}"
             ctx.violation(
-                "failing-input", f"{kind} {OPSYM[op]} template for {tyname(ty)} is not exact-or-revert",
+                "failing-input", f"{kind} {OPSYM[op]} template for {tyname(ty)} ({shape}) is not exact-or-revert",
                 {"generator": f"{'vyper.codegen.arithmetic / expr.py' if kind == 'legacy' else 'vyper.codegen_venom.arithmetic'}"
-                              f", op {op}, type {tyname(ty)}, operands in variables x, y",
+                              f", op {op}, type {tyname(ty)}, operand shape {shape} (VV: variables x, y; LV: x literal; VL: y literal)",
                  "template": tstr, "x": str(c[0]), "y": str(c[1]),
-                 "expected": "revert" if e == -1 else hex(e), "observed_on_evm": "revert" if g == -1 else hex(g),
+                 "expected": "revert" if e == -1 else hex(e),
+                 "observed_on_evm": "revert" if g == -1 else (hex(g) if g is not None else "?"),
                  "how": "template compiled by the real back end (compile_ir / venom -O none) + assembler, executed on pyrevm"},
-                key=f"{kind}-template:{op}:{tyname(ty)}")
-        for op, ty, c, l, g in bad_model[:5]:
+                key=f"{kind}-template:{op}:{tyname(ty)}:{shape}")
+        for op, ty, shape, c, l, g in bad_model[:5]:
             if not found:
                 ctx.violation("correspondence-broken", f"Coq evaluator disagrees with the real back end + EVM on an exported {kind} template",
-                              {"op": op, "type": tyname(ty), "x": str(c[0]), "y": str(c[1]), "coq": str(l), "evm": str(g)})
+                              {"op": op, "type": tyname(ty), "shape": shape, "x": str(c[0]), "y": str(c[1]), "coq": str(l), "evm": str(g)})
     ctx.log(f"template differential done {time.time()-t0:.0f}s")
 
     if ctx.tier == "quick":
-        n, gfail = glue_differential(ctx, tys, core_configs(), 9)
+        n, gfail = glue_differential(ctx, tys, quick_glue_configs(), 9)
     else:
         # all 65 types under the covering configuration set, then the boundary types under every configuration
         n, gfail = glue_differential(ctx, tys, configs("quick"), 12)
@@ -294,15 +412,16 @@ def run(ctx):
 
     ctx.corr["evaluations"] = total
     ctx.corr["distinct_nontrivial"] = total
-    ctx.corr["rule"] = ("distinct (template or probe function, configuration, operand pair) executions on pyrevm; operands from "
-                        "the per-type boundary grid squared, every case is a distinct input")
+    ctx.corr["rule"] = ("distinct (template or probe function, configuration, operand tuple) executions on pyrevm; operands from "
+                        "the per-type boundary grid (squared for two-variable shapes), every case is a distinct input")
     ctx.samples.append({"int8 mul": [-128, -1], "expected": "revert"})
     ctx.samples.append({"int256 floordiv": [str(-2**255), -1], "expected": "revert"})
     ctx.trusted += ["Coq 8.16.1 kernel + vm_compute", "tools/vlib/c03_export.py (IRnode / Venom instruction -> Coq term)",
                     "coq/Base/Word256.v as EVM word semantics (tied to pyrevm by vlib.wordtie in C14 and in C03 thorough)",
                     "pyrevm as EVM reference"]
     ctx.assumptions += ["operands are canonical words of in-range values (guaranteed by ABI/storage clamps: C05)",
-                        "proved shape: operands in variables; literal operands / pow / convert: differential only"]
+                        "literal-operand templates: tied for the literal set {MIN, -1, 0, 1, 7, MAX} per type "
+                        "(covers every literal-dependent branch); theorems parametric in the literal"]
     if ctx.tier == "thorough":
         from vlib import wordtie
         wordtie.run(ctx)
